@@ -357,6 +357,8 @@ func runC08(r *mc.Run) {
 		},
 	}
 	t.Explore(root)
+	c08RacePass(r)
+	c08Schedules(r)
 	r.Sample(map[string]any{"history": aPath(menu[1:4]), "mempool_classes": c08Pools, "mutations": len(c08Mutations())})
 }
 
